@@ -106,3 +106,7 @@ def byte_at(s, j):
 
 def forall(lo, hi, fn):
     return all(fn(j) for j in range(lo, hi))
+
+
+def maybe(x):
+    return [x]
